@@ -282,6 +282,264 @@ func coqPairList(ps [][2]string) string {
 	return "[" + strings.Join(items, ";\n  ") + "]"
 }
 
+// ---- round-2 follow-up: translated (not pinned) statements -------------------------------------------------------
+//
+//   - pass_read_modes: for the two pass loops of TargetEnvironment and the pass_env loop of ruleHash, HOW the caller's
+//     variable is read: "getenv" (os.Getenv: unset and empty are the same) or "lookupenv" (os.LookupEnv under an
+//     `if ..., ok := ...; ok` guard: unset is told apart from empty). Any other body is "other:<text>" - the Coq side has
+//     no interpretation for it, so the proofs fail closed (the translator itself keeps going, the harness still runs).
+//   - needs_building_checks: the sequence of reasons for which needsBuilding returns true, in statement order:
+//     "metadata" / "config" / "rule" / "source" / "secret" / "outputs" / "force"; an unknown condition is "other:<text>".
+//   - build_failure_calls: the calls Build() makes when buildTarget fails (after the errStop branch), in order.
+//   - remote_file_expands: for the built-in remote_file action, (site, mapping) for every expansion of a user string:
+//     os.Expand(x, F) has mapping F, os.ExpandEnv(x) has mapping "os.Getenv"; plus where `env` comes from.
+//   - remote_file_reads: every direct read of the caller's environment in fetchOneRemoteFile / setHeaders.
+
+// readMode classifies the body of a `for _, e := range *target.PassXxx` loop that ASSIGNS env[e].
+func (t *c10Trans) envLoopMode(body *ast.BlockStmt, v string) string {
+	if len(body.List) != 1 {
+		return "other:" + t.text(body)
+	}
+	switch st := body.List[0].(type) {
+	case *ast.AssignStmt:
+		if t.text(st) == fmt.Sprintf("env[%s] = os.Getenv(%s)", v, v) {
+			return "getenv"
+		}
+	case *ast.IfStmt:
+		init, ok := st.Init.(*ast.AssignStmt)
+		if ok && st.Else == nil && len(init.Lhs) == 2 && len(init.Rhs) == 1 && t.text(init.Rhs[0]) == fmt.Sprintf("os.LookupEnv(%s)", v) &&
+			t.text(st.Cond) == t.text(init.Lhs[1]) && len(st.Body.List) == 1 &&
+			t.text(st.Body.List[0]) == fmt.Sprintf("env[%s] = %s", v, t.text(init.Lhs[0])) {
+			return "lookupenv"
+		}
+	}
+	return "other:" + t.text(body)
+}
+
+// hashLoopMode classifies the body of ruleHash's `for _, env := range *target.PassEnv` loop.
+func (t *c10Trans) hashLoopMode(body *ast.BlockStmt, v string) string {
+	texts := []string{}
+	for _, st := range body.List {
+		texts = append(texts, t.text(st))
+	}
+	all := strings.Join(texts, " ; ")
+	if all == fmt.Sprintf("h.Write([]byte(%s)) ; h.Write([]byte{'='}) ; h.Write([]byte(os.Getenv(%s)))", v, v) {
+		return "getenv"
+	}
+	if len(body.List) == 1 {
+		if st, ok := body.List[0].(*ast.IfStmt); ok {
+			if init, ok := st.Init.(*ast.AssignStmt); ok && len(init.Rhs) == 1 && t.text(init.Rhs[0]) == fmt.Sprintf("os.LookupEnv(%s)", v) {
+				return "lookupenv"
+			}
+		}
+	}
+	return "other:" + all
+}
+
+func (t *c10Trans) passLoops(fd *ast.FuncDecl, hash bool) [][2]string {
+	out := [][2]string{}
+	ast.Inspect(fd.Body, func(n ast.Node) bool {
+		rs, ok := n.(*ast.RangeStmt)
+		if !ok {
+			return true
+		}
+		src := t.text(rs.X)
+		if src != "*target.PassUnsafeEnv" && src != "*target.PassEnv" {
+			return true
+		}
+		id, ok := rs.Value.(*ast.Ident)
+		if !ok {
+			out = append(out, [2]string{src, "other:" + t.text(rs)})
+			return true
+		}
+		if hash {
+			out = append(out, [2]string{src, t.hashLoopMode(rs.Body, id.Name)})
+		} else {
+			out = append(out, [2]string{src, t.envLoopMode(rs.Body, id.Name)})
+		}
+		return true
+	})
+	return out
+}
+
+// needsBuildingChecks: the top-level statements of needsBuilding, each either a plain assignment (of old/new hashes) or
+// a reason to return true.
+func (t *c10Trans) needsBuildingChecks(fd *ast.FuncDecl) []string {
+	out := []string{}
+	returnsTrue := func(b *ast.BlockStmt) bool {
+		if len(b.List) == 0 {
+			return false
+		}
+		r, ok := b.List[len(b.List)-1].(*ast.ReturnStmt)
+		return ok && len(r.Results) == 1 && t.text(r.Results[0]) == "true"
+	}
+	conds := map[string]string{
+		"!fs.FileExists(targetBuildMetadataFileName(target))":         "metadata",
+		"!bytes.Equal(oldHashes.config, state.Hashes.Config)":         "config",
+		"!bytes.Equal(oldHashes.rule, newRuleHash)":                   "rule",
+		"err != nil || !bytes.Equal(oldHashes.source, newSourceHash)": "source",
+		"err != nil || !bytes.Equal(oldHashes.secret, newSecretHash)": "secret",
+	}
+	for _, st := range fd.Body.List {
+		switch x := st.(type) {
+		case *ast.AssignStmt:
+			// oldHashes := ..., newRuleHash := ..., newSourceHash, err := ...
+		case *ast.IfStmt:
+			if x.Init != nil || x.Else != nil || !returnsTrue(x.Body) {
+				out = append(out, "other:"+t.text(x.Cond))
+				continue
+			}
+			if name, ok := conds[t.text(x.Cond)]; ok {
+				out = append(out, name)
+			} else {
+				out = append(out, "other:"+t.text(x.Cond))
+			}
+		case *ast.RangeStmt:
+			// for _, output := range target.Outputs() { realOutput := filepath.Join(target.OutDir(), output); if !core.PathExists(realOutput) { ...; return true } }
+			ok := t.text(x.X) == "target.Outputs()" && len(x.Body.List) == 2
+			if ok {
+				as, ok1 := x.Body.List[0].(*ast.AssignStmt)
+				is, ok2 := x.Body.List[1].(*ast.IfStmt)
+				ok = ok1 && ok2 && t.text(as) == "realOutput := filepath.Join(target.OutDir(), output)" &&
+					t.text(is.Cond) == "!core.PathExists(realOutput)" && is.Else == nil && returnsTrue(is.Body)
+			}
+			if ok {
+				out = append(out, "outputs")
+			} else {
+				out = append(out, "other:"+t.text(x))
+			}
+		case *ast.ReturnStmt:
+			if len(x.Results) == 1 && t.text(x.Results[0]) == "state.ShouldRebuild(target)" {
+				out = append(out, "force")
+			} else {
+				out = append(out, "other:"+t.text(x))
+			}
+		default:
+			out = append(out, "other:"+t.text(st))
+		}
+	}
+	return out
+}
+
+// buildFailureCalls: in Build(), the body of `if err := buildTarget(...); err != nil { ... }` after the errStop branch.
+func (t *c10Trans) buildFailureCalls(fd *ast.FuncDecl) []string {
+	for _, st := range fd.Body.List {
+		is, ok := st.(*ast.IfStmt)
+		if !ok || is.Init == nil || !strings.Contains(t.text(is.Init), "buildTarget(") {
+			continue
+		}
+		out := []string{}
+		for _, s := range is.Body.List {
+			switch x := s.(type) {
+			case *ast.ExprStmt:
+				if call, ok := x.X.(*ast.CallExpr); ok {
+					out = append(out, t.text(call.Fun))
+					continue
+				}
+				out = append(out, "other:"+t.text(s))
+			case *ast.IfStmt:
+				if strings.Contains(t.text(x.Cond), "errStop") {
+					continue // the stop branch returns before anything is removed
+				}
+				if init, ok := x.Init.(*ast.AssignStmt); ok && len(init.Rhs) == 1 {
+					if call, ok := init.Rhs[0].(*ast.CallExpr); ok {
+						out = append(out, t.text(call.Fun))
+						continue
+					}
+				}
+				out = append(out, "other:"+t.text(x.Cond))
+			case *ast.ReturnStmt:
+				out = append(out, "return")
+			default:
+				out = append(out, "other:"+t.text(s))
+			}
+		}
+		return out
+	}
+	failShape("Build: `if err := buildTarget(...); err != nil` not found")
+	return nil
+}
+
+// expandMapping: the mapping of an expansion call, "" when the expression is not an expansion.
+func (t *c10Trans) expandMapping(e ast.Expr) string {
+	call, ok := e.(*ast.CallExpr)
+	if !ok {
+		return ""
+	}
+	switch t.text(call.Fun) {
+	case "os.Expand":
+		if len(call.Args) == 2 {
+			return t.text(call.Args[1])
+		}
+		return "other:" + t.text(call)
+	case "os.ExpandEnv":
+		return "os.Getenv"
+	}
+	return ""
+}
+
+func (t *c10Trans) remoteFileExpands(fetch, hdrs *ast.FuncDecl) [][2]string {
+	out := [][2]string{}
+	ast.Inspect(fetch.Body, func(n ast.Node) bool {
+		as, ok := n.(*ast.AssignStmt)
+		if !ok || len(as.Lhs) != 1 || len(as.Rhs) != 1 {
+			return true
+		}
+		if t.text(as.Lhs[0]) == "env" {
+			if call, ok := as.Rhs[0].(*ast.CallExpr); ok {
+				out = append(out, [2]string{"env", t.text(call.Fun)})
+			} else {
+				out = append(out, [2]string{"env", "other:" + t.text(as.Rhs[0])})
+			}
+		}
+		if m := t.expandMapping(as.Rhs[0]); m != "" {
+			out = append(out, [2]string{t.text(as.Lhs[0]), m})
+		}
+		return true
+	})
+	// setHeaders: the `case "header":` clause; every statement that assigns v
+	found := false
+	ast.Inspect(hdrs.Body, func(n ast.Node) bool {
+		cc, ok := n.(*ast.CaseClause)
+		if !ok || len(cc.List) != 1 || t.text(cc.List[0]) != `"header"` {
+			return true
+		}
+		found = true
+		for _, st := range cc.Body {
+			switch x := st.(type) {
+			case *ast.AssignStmt:
+				if len(x.Rhs) == 1 {
+					if m := t.expandMapping(x.Rhs[0]); m != "" {
+						out = append(out, [2]string{"header:" + t.text(x.Lhs[0]), m})
+					} else if call, ok := x.Rhs[0].(*ast.CallExpr); ok && t.text(call.Fun) == "header" {
+						// k, v := header(value)
+					} else {
+						out = append(out, [2]string{"header", "other:" + t.text(x)})
+					}
+				}
+			case *ast.ExprStmt:
+				if call, ok := x.X.(*ast.CallExpr); ok && t.text(call.Fun) == "req.Header.Set" && len(call.Args) == 2 {
+					arg := t.text(call.Args[1])
+					if m := t.expandMapping(call.Args[1]); m != "" {
+						out = append(out, [2]string{"header:set", m})
+					} else {
+						out = append(out, [2]string{"header:set", arg})
+					}
+				} else {
+					out = append(out, [2]string{"header", "other:" + t.text(x)})
+				}
+			default:
+				out = append(out, [2]string{"header", "other:" + t.text(st)})
+			}
+		}
+		return true
+	})
+	if !found {
+		failShape("setHeaders: no `case \"header\":` clause")
+	}
+	return out
+}
+
 func init() {
 	targets["C10Env"] = func() string {
 		var b strings.Builder
@@ -383,6 +641,31 @@ func init() {
 		fmt.Fprintf(&b, "Definition cmd_env : list (string * string) :=\n  %s.\n", coqPairList(cmdEnv))
 		fmt.Fprintf(&b, "(* (function, guard, base, appended items) of every statement that sets the command's environment, in execution order *)\n")
 		fmt.Fprintf(&b, "Definition exec_env_prog : list (string * string * string * list string) :=\n  [%s].\n", strings.Join(prog, ";\n  "))
+
+		// round-2 follow-up
+		modes := []string{}
+		for _, p := range t.passLoops(findFunc(f, "", "TargetEnvironment"), false) {
+			modes = append(modes, fmt.Sprintf("(%s, %s, %s)", coqString("TargetEnvironment"), coqString(p[0]), coqString(p[1])))
+		}
+		for _, p := range t3.passLoops(rh, true) {
+			modes = append(modes, fmt.Sprintf("(%s, %s, %s)", coqString("ruleHash"), coqString(p[0]), coqString(p[1])))
+		}
+		fmt.Fprintf(&b, "(* (function, list ranged over, how the caller's variable is read) *)\n")
+		fmt.Fprintf(&b, "Definition pass_read_modes : list (string * string * string) :=\n  [%s].\n", strings.Join(modes, ";\n  "))
+		fmt.Fprintf(&b, "Definition needs_building_checks : list string :=\n  %s.\n", coqStringList(t3.needsBuildingChecks(findFunc(f3, "", "needsBuilding"))))
+		fset6, f6 := parseFile("src/build/build_step.go")
+		t6 := &c10Trans{fset: fset6}
+		fmt.Fprintf(&b, "Definition build_failure_calls : list string :=\n  %s.\n", coqStringList(t6.buildFailureCalls(findFunc(f6, "", "Build"))))
+		fetch, hdrs := findFunc(f6, "", "fetchOneRemoteFile"), findFunc(f6, "", "setHeaders")
+		fmt.Fprintf(&b, "Definition remote_file_expands : list (string * string) :=\n  %s.\n", coqPairList(t6.remoteFileExpands(fetch, hdrs)))
+		rfReads := [][2]string{}
+		for _, r := range t6.reads(fetch) {
+			rfReads = append(rfReads, [2]string{"fetchOneRemoteFile", r})
+		}
+		for _, r := range t6.reads(hdrs) {
+			rfReads = append(rfReads, [2]string{"setHeaders", r})
+		}
+		fmt.Fprintf(&b, "Definition remote_file_reads : list (string * string) :=\n  %s.\n", coqPairList(rfReads))
 		return b.String()
 	}
 }
